@@ -3,6 +3,7 @@ package roverif
 import (
 	"context"
 	"fmt"
+	"strings"
 	"time"
 
 	"github.com/samber/ro"
@@ -83,14 +84,17 @@ func init() {
 
 	Register(&Family{
 		Name:   "C14.ctx",
-		Props:  []string{"C14", "C16"},
+		Props:  []string{"C14", "C16", "C01", "C02"},
 		Weight: 2,
 		Gen: func(g *Gen) *Scn {
 			sc := &Scn{Family: "C14.ctx"}
-			sc.Sub = g.Pick("Interval", "IntervalWithInitial", "Never", "Timer", "RangeWithInterval", "RepeatWithInterval", "ThrowOnContextCancel", "Retry", "RetryTimer", "RetryNever")
+			sc.Sub = g.Pick("Interval", "IntervalWithInitial", "Never", "Timer", "RangeWithInterval", "RepeatWithInterval", "ThrowOnContextCancel", "Retry", "RetryTimer", "RetryNever",
+				// operators that own a context-aware ticker, over a source that does not watch the context
+				"BufferWithTimeOrCount", "BufferWithTime", "SampleTime")
 			sc.SetInt("d", g.PickInt(1, 2, 3))
 			sc.SetInt("at", g.Range(0, 8))
 			sc.SetInt("reset", g.Intn(2)) // a ContextReset stage between the source and the subscriber
+			sc.SetInt("race", g.Intn(2))  // the cancellation comes from a goroutine of its own, at the very instant a value is due
 			return sc
 		},
 		Run: runC14Ctx,
@@ -278,6 +282,17 @@ func runC14Ctx(e *Env) {
 	case "ThrowOnContextCancel":
 		src = e.NewSrc(SrcSpec{Mode: "endless", Script: []Step{{K: "N", Gap: sc.Int("d", 1)}}})
 		o = ro.ThrowOnContextCancel[int]()(src.Obs())
+	case "BufferWithTimeOrCount", "BufferWithTime", "SampleTime":
+		src = e.NewSrc(SrcSpec{Mode: "endless", Script: []Step{{K: "N", V: 1, Gap: 1}}})
+		first := ro.Map(func(b []int) int { return len(b) })
+		switch sc.Sub {
+		case "BufferWithTimeOrCount":
+			o = first(ro.BufferWithTimeOrCount[int](3, 2*d)(src.Obs()))
+		case "BufferWithTime":
+			o = first(ro.BufferWithTime[int](2 * d)(src.Obs()))
+		default:
+			o = ro.SampleTime[int](2 * d)(src.Obs())
+		}
 	case "RetryTimer":
 		// a context-aware source that reports the cancellation as its error, below an undelayed Retry:
 		// the cancellation must end the retry loop, not feed it
@@ -296,20 +311,36 @@ func runC14Ctx(e *Env) {
 	ctx, cancel := simcontext.WithCancel(context.Background())
 	rec := e.NewRec("o")
 	h := e.Subscribe(o, rec.Observer(), ctx)
-	e.SettleFor(dur(sc.Int("at", 1)))
-	if e.K.Capped() {
-		return
-	}
 	cancelStep := 0
 	liveAtCancel := -1
-	e.Go("canceller", func() {
+	canceller := func() {
 		if src != nil {
 			liveAtCancel = src.Live
 		}
 		cancel()
 		cancelStep = e.Step()
-	})
+	}
+	racing := sc.Int("race", 0) == 1 && !strings.HasPrefix(sc.Sub, "Retry")
+	if racing {
+		e.Go("canceller", func() { simSleep(dur(sc.Int("at", 1))); canceller() })
+	}
+	e.SettleFor(dur(sc.Int("at", 1)))
+	if e.K.Capped() {
+		return
+	}
+	if !racing {
+		e.Go("canceller", canceller)
+	}
 	e.Settle()
+	// whatever the instant of the cancellation: values, then at most one terminal, one callback at a time
+	defer func() {
+		if g := rec.GrammarError(); g != "" {
+			e.Violate("C01", "grammar", fmt.Sprintf("%s, context cancelled while values flow: %s (trace %s)", sc.Sub, g, rec.Trace()))
+		}
+		if len(rec.Overlap) > 0 {
+			e.Violate("C02", "overlap", fmt.Sprintf("%s, context cancelled while values flow: %s", sc.Sub, rec.Overlap[0]))
+		}
+	}()
 	if e.K.Capped() {
 		e.Violate("C14", "busy-loop-after-termination", "busy loop after context cancellation")
 		return
